@@ -173,6 +173,14 @@ K_POSITION = [
     K("position_from_index_contract", "Position::from_index == (1 + newlines before offset, bytes since last newline), black-box, inputs <= 6 bytes, every offset",
       ["reader::Position::from_index"], kind="bounded(input length <= 6)"),
 ]
+K_UNCHECKED = [
+    K("skip_string_unchecked_33", "skip_string_unchecked == scalar first-unescaped-quote scan (end offset, escape status), all 33-byte inputs over {\" \\ a} (one SIMD block + 1)",
+      ["parser::Parser::skip_string_unchecked"], kind="bounded(33 bytes, 3-symbol alphabet)", tier="thorough", timeout=900),
+    K("skip_string_unchecked_block_edge", "same, lengths 33..=36", ["parser::Parser::skip_string_unchecked"],
+      kind="bounded(33..36 bytes, 3-symbol alphabet)", tier="thorough", timeout=1500),
+    K("get_next_token_block_edge", "get_next_token([t1,t2],1) == first token byte at/after idx, lengths 33..=35 over {t1 t2 x}, both token pairs",
+      ["parser::Parser::get_next_token"], kind="bounded(33..35 bytes, 3-symbol alphabet)", tier="thorough", timeout=1500),
+]
 K_STRBITS = [
     K("string_bits_all", "get_string_bits == scalar in-string scan with both carries, all 64-byte blocks x 4 carry states", ["parser::get_string_bits"], timeout=600),
 ]
@@ -291,7 +299,7 @@ PROPS["C09"] = {
 PROPS["C10"] = {
     "level": "proof",
     "verus": [{"unit": "walkers", "rlimit": 200}],
-    "kani": K_BITS + K_PXOR + K_STRBITS,
+    "kani": K_BITS + K_PXOR + K_STRBITS + K_UNCHECKED,
     "trusted_base": [T1, T2, T3, T4, T6, T8, VSTD, KANI, PERR,
                      "skip_container_loop (bracket counting over 64-bit masks) is NOT decided: CBMC does not finish; skip_container, skip_string_unchecked, get_next_token and the unchecked walkers are not under contract",
                      "decoded()/decodable() of member names are uninterpreted in unit walkers (decoder contracts: C09)"],
